@@ -429,7 +429,7 @@ Definition step_dequeue (fl : flavour) (c : cfg) (now : Z) (route target : optio
   let t := eff_ttl ttl in
   let s2 :=
     match fl with
-    | Mem => prune c now (o_gone o) (set_msgs s (sweep now (msgs s)))
+    | Mem => let s1 := prune c now (o_gone o) s in set_msgs s1 (sweep now (msgs s1))   (* prune, then sweep (since fix 30c02e7) *)
     | Sql =>
         let s1 := prune c now (o_gone o) s in
         if sql_sweep_due now (last_sweep s1)
